@@ -73,6 +73,16 @@ func runC09(c *Ctx) {
 		}
 	}
 	c.Floor("C09.A1-filter-before-cache", 5)
+	// the allow filter is consulted nowhere else, and only about an announcement's attributed publisher: a test
+	// against the pubsub sender would reject republished announcements of an allowed publisher
+	for _, f := range c.Funcs(pkg) {
+		for _, a := range c.Calls(f.SSA, Op("dyncall", "", Field("allowPeer", Any()))) {
+			okArg := len(a.X.Args) == 2 && a.X.Args[1].Op == "field" && a.X.Args[1].Name == "PeerID" && fieldOwner(a.X.Args[1]) == "Announce"
+			c.Check(okArg && a.Fn == checkFn, "C09.A1-filter-sole-use", c.short(a.Fn.String())+" › allow filter call", a.In.Pos(),
+				"the allow filter is asked about Announce.PeerID in the one routine that also updates the duplicate cache", "the allow filter is applied to something other than the announcement's attributed publisher, or outside the admission routine: delivery is no longer 'iff the source peer passes the filter'")
+		}
+	}
+	c.Floor("C09.A1-filter-sole-use", 1)
 
 	// ---- A2 who touches the cache, under the mutex ----------------------------------------
 	la := c.LockAnalyses(pkg, nil)
@@ -357,6 +367,42 @@ func c09LRU(c *Ctx, pkg string) {
 			c.Check(paired, "C09.A8-lru-discipline", f.Name+" › list removal paired with map deletion", cs.In.Pos(), "the removed element's key is deleted from the map in the same step", "an element is removed from the list but stays in the map (or another key is deleted): the set and its recency list diverge")
 		}
 	}
+	// and conversely: every deletion from the map removes that element from the list in the same step
+	for _, f := range []*Fn{upd, rem} {
+		instrs(f.SSA, func(in ssa.Instruction) {
+			ci, ok := in.(ssa.CallInstruction)
+			if !ok {
+				return
+			}
+			x := c.CallX(ci)
+			if x.Op != "builtin" || x.Name != "delete" || len(x.Args) != 2 {
+				return
+			}
+			if _, isCache := Match(FieldT("map[string]*container/list.Element", Any()), x.Args[0]); !isCache {
+				return
+			}
+			k := x.Args[1]
+			paired := false
+			for _, in2 := range in.Block().Instrs {
+				ci2, ok := in2.(ssa.CallInstruction)
+				if !ok {
+					continue
+				}
+				y := c.CallX(ci2)
+				if !nameMatches(y.Name, "container/list.List).Remove") || len(y.Args) < 2 {
+					continue
+				}
+				elem := y.Args[1]
+				if _, m := Match(Field("Value", Is(elem)), k); m {
+					paired = true
+				}
+				if _, m := Match(Extract("0", Op("lookup", "", Any(), Is(k))), elem); m {
+					paired = true
+				}
+			}
+			c.Check(paired, "C09.A8-lru-discipline", f.Name+" › map deletion paired with list removal", in.Pos(), "the deleted key's element is removed from the recency list in the same step", "a key is deleted from the map but its element stays in the recency list: it still counts towards the capacity and its later eviction deletes a live entry")
+		})
+	}
 	// update: hit => MoveToFront, returns true, and no insertion reachable
 	var lookupOK *X
 	for _, b := range upd.SSA.Blocks {
@@ -411,5 +457,5 @@ func c09LRU(c *Ctx, pkg string) {
 		}
 	}
 	c.Check(okRet, "C09.A8-lru-discipline", upd.Name+" › reports hit/miss", upd.SSA.Pos(), "returns true exactly on a hit", "update's result does not tell hit from miss")
-	c.Floor("C09.A8-lru-discipline", 6)
+	c.Floor("C09.A8-lru-discipline", 8)
 }
